@@ -29,7 +29,7 @@ fn usage() -> ExitCode {
     eprintln!(
         "usage:\n  harness replay [--ops <file>] [--out <file>] [--rewrite <file>]    (default: stdin / stdout)\n  harness gen --seed <u64> --cases <n> --maxlen <n> --kind <hashmap|lru|pool|all> \
          --profile <mixed|cancel|limit|expire|stream|pool> --ops <file> --out <file> --stats <file.json> [--avoid sdrop-order]\n  \
-         harness sgen --seed <u64> --cases <n> --kind <hashmap|lru|pool|all> --threads <0|1..16> --stmts <n> [--profile mixed|limit|pool|cancel] \
+         harness sgen --seed <u64> --cases <n> --kind <hashmap|lru|pool|all> --threads <0|1..16> --stmts <n> [--profile mixed|limit|pool|cancel|stream] \
          --ops <file> --out <file> --stats <file.json>\n  \
          harness sdfs --kind <hashmap|lru|pool> --programs \"<prog0> | <prog1> ...\" --max-schedules <n> --ops <file> --out <file> --stats <file.json>\n  \
          harness sdfs-gen --seed <u64> --count <n> --kind <hashmap|lru|pool|all> --max-schedules <n> --ops <file> --out <file> --stats <file.json>"
@@ -179,10 +179,11 @@ fn sgen(flags: &HashMap<String, String>) -> Result<(), String> {
     let (kind_s, kind) = flag_kind(flags)?;
     let profile = flags.get("profile").cloned().unwrap_or_else(|| "mixed".to_string());
     // (soft limit, hand-polled acquisition) percentages of the lock statements
-    let (soft_pct, alock_pct) = match profile.as_str() {
-        "mixed" | "pool" => (25, 15),
-        "limit" => (60, 0),
-        "cancel" => (15, 55),
+    let (soft_pct, alock_pct, stream_pct) = match profile.as_str() {
+        "mixed" | "pool" => (25, 15, 0),
+        "limit" => (60, 0, 0),
+        "cancel" => (15, 55, 0),
+        "stream" => (10, 15, 45),
         p => return Err(format!("--profile: unknown profile {p}")),
     };
     let mut ops = open_out(flags, "ops")?;
@@ -205,6 +206,7 @@ fn sgen(flags: &HashMap<String, String>) -> Result<(), String> {
                 max_locks: u64::MAX,
                 soft_pct,
                 alock_pct,
+                stream_pct,
             };
             let progs: Vec<_> = (0..n).map(|_| sgen::gen_program(&mut rng, &cfg)).collect();
             writeln!(run.ops, "# case {i} kind={} threads={n} keys={}", k.name(), cfg.nkeys).map_err(|e| e.to_string())?;
@@ -273,6 +275,8 @@ fn sdfs_gen(flags: &HashMap<String, String>) -> Result<(), String> {
             let k = kind.unwrap_or(KINDS[(i % 3) as usize]);
             // about 30% of the program sets contain hand-polled acquisitions (a little longer, to have room for polls)
             let with_alock = rng.pct(30);
+            // `--streams <pct>`: that share of the programs owns a `lock_all_entries` stream
+            let stream_pct = flags.get("streams").and_then(|s| s.parse::<u64>().ok()).unwrap_or(0);
             let cfg = sgen::ProgCfg {
                 kind: k,
                 nkeys: 2,
@@ -280,6 +284,7 @@ fn sdfs_gen(flags: &HashMap<String, String>) -> Result<(), String> {
                 max_locks: 2,
                 soft_pct: 30,
                 alock_pct: if with_alock { 50 } else { 0 },
+                stream_pct,
             };
             let progs: Vec<_> = (0..2).map(|_| sgen::gen_program(&mut rng, &cfg)).collect();
             writeln!(
